@@ -19,7 +19,9 @@ and replays ops: ['adv', dv, tv] displaces the particle with identity i by
 dv[i % len] lattice units along f (tv: transverse); ['in', stage] /
 ['out', stage] call the real update(t, dt, stage).  For every call the rows
 (identity, s, t1, t2, two copied properties) of the inlet, fluid and outlet
-arrays before and after are logged in 1/FINE lattice units.  After an inlet
+arrays before and after are logged in 1/FINE lattice units.  A scenario
+{'id', 'seq': [scenario, ...]} runs several histories with the same array
+names and different geometries interleaved in ONE process (see run()).  After an inlet
 call the harness gives every recycled inlet original (its identity now also
 occurs in the fluid) a fresh identity, so identities are unique before each
 call.  Each scenario runs in a forked child (RLIMIT_AS 8 GB, alarm).
@@ -261,49 +263,101 @@ class Rig(object):
         obj.update(0.0, 0.125, stage)
 
 
-def run(sc):
-    rig = Rig(sc)
-    U = rig.U
-    calls = []
-    errtext = None
-    for op in sc['ops']:
-        if op[0] == 'adv':
-            rig.advect(op[1], op[2])
-            continue
-        kind, stage = op[0], int(op[1])
-        before = rig.state()
+class Replay(object):
+    """One history on one rig, replayed op by op (so that several rigs living
+    in the same process can be interleaved)."""
+
+    def __init__(self, sc):
+        self.sc = sc
+        self.pos = 0
+        self.calls = []
+        self.errtext = None
+        self.dead = False
+        self.rig = None
+        self.failure = None
         try:
-            rig.call(kind, stage)
-            ok = True
-            after = rig.state()
+            self.rig = Rig(sc)
         except Exception as ex:
-            ok = False
-            after = before
-            errtext = '%s: %s | %s' % (type(ex).__name__, ex,
-                                      traceback.format_exc()[-600:])
-        calls.append(dict(kind=kind, stage=stage, ok=ok, before=before,
-                          after=after))
-        if not ok:
-            break
-        if kind == 'in':
-            rig.relabel()
-    ii, oi = rig.infos
-    rec = dict(
-        id=sc['id'],
-        g=dict(Lin=sc['Lin'] * FINE, X=sc['X'] * FINE, Lout=sc['Lout'] * FINE,
-               copyq=sc['ptc'] != 'nob', active=rig.expected_active),
-        code=dict(Lin=int(round(ii.length / U * FINE)),
-                  Lout=int(round(oi.length / U * FINE)),
-                  LinM=int(round(ii.length / U * MICRO)),
-                  LoutM=int(round(oi.length / U * MICRO))),
-        mpf=MICRO // FINE,
-        code_len_units=[ii.length / U, oi.length / U],
-        impl_active=[list(rig.inlet_obj.active_stages),
-                     list(rig.outlet_obj.active_stages)],
-        naxes=rig.naxes, fine=FINE, calls=calls)
-    if errtext:
-        rec['errtext'] = errtext
-    return rec
+            self.dead = True
+            self.failure = dict(id=sc['id'],
+                                error='%s: %s' % (type(ex).__name__, ex),
+                                tb=traceback.format_exc()[-1200:])
+
+    def advance(self, upto):
+        rig = self.rig
+        ops = self.sc['ops']
+        while self.pos < min(upto, len(ops)) and not self.dead:
+            op = ops[self.pos]
+            self.pos += 1
+            if op[0] == 'adv':
+                rig.advect(op[1], op[2])
+                continue
+            kind, stage = op[0], int(op[1])
+            before = rig.state()
+            try:
+                rig.call(kind, stage)
+                ok = True
+                after = rig.state()
+            except Exception as ex:
+                ok = False
+                after = before
+                self.errtext = '%s: %s | %s' % (
+                    type(ex).__name__, ex, traceback.format_exc()[-600:])
+            self.calls.append(dict(kind=kind, stage=stage, ok=ok,
+                                   before=before, after=after))
+            if not ok:
+                self.dead = True
+            elif kind == 'in':
+                rig.relabel()
+
+    def record(self):
+        if self.failure:
+            return self.failure
+        sc, rig = self.sc, self.rig
+        U = rig.U
+        ii, oi = rig.infos
+        rec = dict(
+            id=sc['id'],
+            g=dict(Lin=sc['Lin'] * FINE, X=sc['X'] * FINE,
+                   Lout=sc['Lout'] * FINE, copyq=sc['ptc'] != 'nob',
+                   active=rig.expected_active),
+            code=dict(Lin=int(round(ii.length / U * FINE)),
+                      Lout=int(round(oi.length / U * FINE)),
+                      LinM=int(round(ii.length / U * MICRO)),
+                      LoutM=int(round(oi.length / U * MICRO))),
+            mpf=MICRO // FINE,
+            code_len_units=[ii.length / U, oi.length / U],
+            impl_active=[list(rig.inlet_obj.active_stages),
+                         list(rig.outlet_obj.active_stages)],
+            naxes=rig.naxes, fine=FINE, calls=self.calls)
+        if self.errtext:
+            rec['errtext'] = self.errtext
+        return rec
+
+
+def run(sc):
+    """Returns the list of trace records of a scenario.  A scenario with a
+    'seq' key holds several histories with the SAME array names and
+    different geometries that share one process: pair k is built after the
+    first half of the history of pair k-1 has run, every pair stays alive,
+    and the second halves run once all pairs exist - anything an inlet or
+    outlet keeps per process / per array name instead of per object shows."""
+    if 'seq' not in sc:
+        rp = Replay(sc)
+        rp.advance(len(sc['ops']))
+        return [rp.record()]
+    reps = []
+    for sub in sc['seq']:
+        rp = Replay(sub)
+        reps.append(rp)
+        rp.advance(len(sub['ops']) // 2)
+    for rp in reps:
+        rp.advance(len(rp.sc['ops']))
+    return [rp.record() for rp in reps]
+
+
+def ids_of(sc):
+    return [s['id'] for s in sc['seq']] if 'seq' in sc else [sc['id']]
 
 
 SEEDED_FAULTS = {
@@ -363,12 +417,14 @@ def main():
                 resource.setrlimit(resource.RLIMIT_AS, (8 << 30, 8 << 30))
                 signal.alarm(int(os.environ.get('C16_CASE_TIMEOUT', '600')))
                 try:
-                    rec = run(sc)
+                    out = run(sc)
                 except Exception as ex:
-                    rec = dict(id=sc['id'],
-                               error='%s: %s' % (type(ex).__name__, ex),
-                               tb=traceback.format_exc()[-1200:])
-                data = (json.dumps(rec) + '\n').encode()
+                    out = [dict(id=i,
+                                error='%s: %s' % (type(ex).__name__, ex),
+                                tb=traceback.format_exc()[-1200:])
+                           for i in ids_of(sc)]
+                data = ''.join(json.dumps(rec) + '\n'
+                               for rec in out).encode()
                 while data:
                     n = os.write(w, data)
                     data = data[n:]
@@ -383,9 +439,11 @@ def main():
             os.close(r)
             _, st = os.waitpid(pid, 0)
             if os.WIFSIGNALED(st) or not data.endswith(b'\n'):
-                fo.write(json.dumps(dict(
-                    id=sc['id'], crash='signal %d' % (
-                        os.WTERMSIG(st) if os.WIFSIGNALED(st) else 0))) + '\n')
+                for i in ids_of(sc):
+                    fo.write(json.dumps(dict(
+                        id=i, crash='signal %d' % (
+                            os.WTERMSIG(st) if os.WIFSIGNALED(st) else 0)))
+                        + '\n')
             else:
                 fo.write(data.decode())
             fo.flush()
